@@ -413,6 +413,11 @@ func genC15(g *gen, tier string) *Scenario {
 		sleepMax = 3000
 		sc.Family += ",short-ttls"
 	}
+	mixedCosts := g.pct(40) // the cost of a key changes between its writes
+	if mixedCosts {
+		sc.Cache.MaxSize = int64(pick(g, 3, 4, 6, 8))
+		sc.Stubs.LoaderCostMax = 3
+	}
 	for c := 0; c < nc; c++ {
 		var ops []Op
 		for n := g.rng(4, 24); n > 0; n-- {
@@ -421,6 +426,9 @@ func genC15(g *gen, tier string) *Scenario {
 			switch {
 			case x < 50:
 				op := Op{Kind: "set", Key: own, Cost: 1}
+				if mixedCosts {
+					op.Cost = int64(g.rng(1, 3))
+				}
 				if g.pct(35) {
 					op.TTL = ttls[g.n(len(ttls))]
 				}
@@ -537,6 +545,39 @@ func checkC15x(rd *RunData) []Violation {
 			}
 		}
 		return vs
+	}
+	// what is written to the secondary tier is the entry as it was stored: the value with the cost
+	// of the call that stored it
+	wcost := map[int64]int64{}
+	for _, r := range recs {
+		if r.Op.Kind == "set" && r.Ok {
+			c := r.Op.Cost
+			if c == 0 {
+				c = costOf(r.Val)
+			}
+			wcost[r.Val] = c
+		}
+	}
+	for _, l := range rd.Loader {
+		if l.Outcome == "ok" {
+			c := l.Cost
+			if c == 0 {
+				c = costOf(l.Val)
+			}
+			wcost[l.Val] = c
+		}
+	}
+	for _, sr := range rd.Sec {
+		if sr.Op != "set" || sr.Err {
+			continue
+		}
+		if c, ok := wcost[sr.Val]; ok {
+			probe("c15.demotion-cost-checked")
+			if c != sr.Cost {
+				vs = append(vs, Violation{"C15/demoted-with-wrong-cost/" + kind, fmt.Sprintf("key %d: value %d was stored with cost %d but written to the secondary tier with cost %d: after a promotion memory accounts the wrong cost", sr.Key, sr.Val, c, sr.Cost)})
+				break
+			}
+		}
 	}
 	// working secondary: every key's latest value is in memory or in the secondary tier
 	secv := map[int]int64{}
